@@ -81,12 +81,21 @@ func levelOf(s string) upgrade.Level {
 	return upgrade.Major
 }
 
+// upgradeConfig builds the configuration the way the command line does: from "<package>:<level>" strings
+// (Maven names contain a colon themselves) and a bare "<level>" for the default.
 func upgradeConfig(levels map[string]string) upgrade.Config {
-	c := upgrade.NewConfig()
+	var strs []string
 	for k, v := range levels {
-		c.Set(k, levelOf(v))
+		if levelOf(v) == upgrade.Major && v != "major" {
+			v = "major" // the scenario's spelling of "anything" is the default level
+		}
+		if k == "" {
+			strs = append(strs, v)
+		} else {
+			strs = append(strs, k+":"+v)
+		}
 	}
-	return c
+	return upgrade.NewConfigFromStrings(strs)
 }
 
 func (s *Scenario) remOpts(analysisOnly bool) options.RemediationOptions {
